@@ -54,6 +54,16 @@ class C07(InvProp):
         e1.add_faults(rng, scn, p_pause=0.2, p_rescue=0.1)
         if rng.chance(0.15):
             scn['edits'] = e1.gen_edits(rng, scn)
+        if rng.chance(0.25):
+            # a time control on a junction changes that junction's own required pressure / minimum pressure / exponent during the run
+            jn = rng.pick(js)
+            pm_, pr_, ex_ = inv.pdd_params(scn, jn)
+            attr = rng.pick(['required_pressure', 'required_pressure', 'minimum_pressure'])    # the two the simulator registers updaters for
+            val = {'required_pressure': round(pr_ + rng.pick([3.0, 8.0, -0.4 * (pr_ - pm_)]), 3), 'minimum_pressure': round(pm_ + 0.4 * (pr_ - pm_), 3),
+                   'pressure_exponent': rng.pick([0.4, 0.8, 1.0])}[attr]
+            tch = int(rng.irange(1, max(1, o['duration'] // o['hyd_step'] - 1)) * o['hyd_step'] + rng.pick([0, 0, 37]))
+            scn['pdd_changes'] = [{'t': tch, 'node': jn['id'], 'attr': attr, 'value': val}]
+            scn.pop('edits', None)      # the control leaves the junction changed: a rerun on the same model would start from the changed value
         return scn
 
     def oracle(self, scn, out, c):
